@@ -2465,3 +2465,114 @@ func patchBytesUnaltered(r *an.Run, rule string) {
 	r.Count("hand-overs of the patch source", n)
 	r.Min("hand-overs of the patch source", 5)
 }
+
+// ---------------------------------------------------------------------------
+// C13 / C19: line positions are read before the marker strip moves them
+
+// positionsReadBeforeStrip: splitPatch strips the '-' / '+' marker by
+// mutating the section's lines in place (Text = Text[1:], StartPos++). Every
+// caller that also needs the ORIGINAL positions of those lines (the start of
+// the patch, which becomes the position of the implicit leading '...') must
+// read them before that call: a read after it sees column 2 instead of 1 for
+// a first line that carries a marker, and the outcome then depends on whether
+// the pattern begins with a '-' line or with a context line (seed C13-8).
+func positionsReadBeforeStrip(r *an.Run, rule string) {
+	r.Rule(rule)
+	isLineStartPos := func(fa *ssa.FieldAddr) bool {
+		return fieldNameOf(fa) == "StartPos" && strings.HasSuffix(an.ShortType(fa.X.Type()), "section.Line")
+	}
+	// functions that (transitively) write / read Line.StartPos
+	writes, reads := map[*ssa.Function]bool{}, map[*ssa.Function]bool{}
+	for _, f := range r.P.ModuleFuncs() {
+		for _, b := range f.Blocks {
+			for _, in := range b.Instrs {
+				fa, ok := in.(*ssa.FieldAddr)
+				if !ok || !isLineStartPos(fa) || fa.Referrers() == nil {
+					continue
+				}
+				for _, u := range *fa.Referrers() {
+					switch x := u.(type) {
+					case *ssa.Store:
+						if x.Addr == ssa.Value(fa) {
+							// initialising a line that is being built is not a mutation of a shared one
+							if _, fresh := an.Root(fa.X).(*ssa.Alloc); !fresh {
+								writes[f] = true
+							}
+						}
+					case *ssa.UnOp:
+						reads[f] = true
+					}
+				}
+			}
+		}
+	}
+	closure := func(seed map[*ssa.Function]bool) map[*ssa.Function]bool {
+		out := map[*ssa.Function]bool{}
+		for f := range seed {
+			out[f] = true
+		}
+		for changed := true; changed; {
+			changed = false
+			for _, f := range r.P.ModuleFuncs() {
+				if out[f] {
+					continue
+				}
+				for _, c := range an.Calls(f) {
+					if sc := an.StaticCallee(c); sc != nil && out[sc] {
+						out[f] = true
+						changed = true
+					}
+				}
+			}
+		}
+		return out
+	}
+	directWriters := writes
+	readers := closure(reads)
+	writersAll := closure(directWriters)
+	n := 0
+	for _, f := range r.P.ModuleFuncs() {
+		if directWriters[f] {
+			continue
+		}
+		for _, c := range an.Calls(f) {
+			w := an.StaticCallee(c)
+			if w == nil || !writersAll[w] || w == f {
+				continue
+			}
+			n++
+			// reads of line positions in f that can execute after this call
+			after := an.ReachFromSuccs(c.Block(), nil)
+			var late ssa.Instruction
+			for _, b := range f.Blocks {
+				for _, in := range b.Instrs {
+					rd := false
+					switch x := in.(type) {
+					case ssa.CallInstruction:
+						if sc := an.StaticCallee(x); sc != nil && readers[sc] && !writersAll[sc] {
+							rd = true
+						}
+					case *ssa.FieldAddr:
+						if isLineStartPos(x) {
+							rd = true
+						}
+					}
+					if !rd {
+						continue
+					}
+					if after[b] && b != c.Block() || b == c.Block() && an.InstrBlockIndex(in) > an.InstrBlockIndex(c) {
+						late = in
+					}
+				}
+			}
+			key := short(f) + "|positions-before|" + an.TrimModule(an.CalleeName(c))
+			if late == nil {
+				r.Pass(key, c.Pos(), "%s reads the positions of the section's lines only before %s moves them past the '-'/'+' marker", short(f), short(w))
+			} else {
+				r.Fail(key, late.Pos(), "%s reads a line position after %s has advanced the lines past their '-'/'+' marker in place: the start of the patch (the position of the implicit leading '...') then depends on whether the first line carries a marker", short(f), short(w))
+			}
+		}
+	}
+	r.Count("callers of the marker strip", n)
+	r.Min("callers of the marker strip", 1)
+}
